@@ -1,19 +1,26 @@
 #!/bin/bash
 # usage: tools_seed.sh <dir with patch.diff demo.py meta.json> <check ids...>
 # Applies the patch in a scratch worktree, confirms tests pass and the demo discriminates,
-# runs the given checks against it (VERIF_REPO), prints a summary line per check.
-d=$1; shift
+# runs the given checks against it (VERIF_REPO) in an ISOLATED copy of coq/ + _build/
+# (VERIF_WORKROOT), so several seeds can be evaluated concurrently and /verif's own build and
+# evidence are untouched. Prints a summary line per check.  SKIP_TESTS=1 skips the test suite.
+d=$(readlink -f $1); shift
 wt=/tmp/eval-wt-$$
+wr=/tmp/eval-wr-$$
 git -C /repo worktree add --detach $wt >/dev/null 2>&1 || exit 2
-cleanup() { git -C /repo worktree remove --force $wt >/dev/null 2>&1; }
+mkdir -p $wr && cp -a /verif/coq /verif/_build $wr/ 2>/dev/null
+cleanup() { git -C /repo worktree remove --force $wt >/dev/null 2>&1; rm -rf $wr; }
 trap cleanup EXIT
 ( cd /repo && PYTHONPATH=/repo /venv/bin/python $d/demo.py >/dev/null 2>&1 ); base=$?
 git -C $wt apply $d/patch.diff || { echo "PATCH DOES NOT APPLY"; exit 2; }
-tests=$(cd $wt && PYTHONPATH=$wt /venv/bin/python -m pytest -q -p no:cacheprovider 2>&1 | tail -1)
+if [ -z "$SKIP_TESTS" ]; then
+  tests=$(cd $wt && PYTHONPATH=$wt /venv/bin/python -m pytest -q -p no:cacheprovider 2>&1 | tail -1)
+else tests=skipped; fi
 ( cd $wt && PYTHONPATH=$wt /venv/bin/python $d/demo.py >/dev/null 2>&1 ); mut=$?
 echo "seed=$d tests=[$tests] demo_pristine_rc=$base demo_mutated_rc=$mut"
 for c in "$@"; do
-  out=$(cd /verif && VERIF_REPO=$wt ./check $c --tier ${TIER:-quick} 2>&1)
+  out=$(cd /verif && VERIF_WORKROOT=$wr VERIF_REPO=$wt ./check $c --tier ${TIER:-quick} 2>&1)
   rc=$?
+  [ -n "$KEEP_LOG" ] && echo "$out" > $KEEP_LOG.$c.log
   echo "  check $c rc=$rc $(echo "$out" | grep -c '^VIOLATION') violation lines; first: $(echo "$out" | grep -A1 '^VIOLATION' | head -2 | tr '\n' ' ' | cut -c1-300)"
 done
